@@ -2499,6 +2499,6 @@ func main() {
 		}
 		add(kind, in)
 	}
-	out.Extra["rule"] = "cases = data graph over one of 8 model families (keys: uint, string, (string,string), (int64,string), (string,int64), (int64,string) with sql.Null* foreign keys, []byte, uint by gorm's naming conventions without foreignKey/references tags) x relation {has_one, has_many, belongs_to, many2many, polymorphic, self belongs_to, self has_many} x {Preload single / nested / clause.Associations / with inline or scope conditions / a named preload with its own conditions combined with clause.Associations carrying conditions or an Unscoped scope (both orders) / the same destination loaded again after rows were soft-deleted or with other conditions, association Joins / InnerJoins without and with ON conditions passed as *gorm.DB, join paths of two and three relations joined by the longest path only / with Joins(Rel) / with every prefix (+nested preload below the first or the second joined relation), Association().Find} x Unscoped x parent shape {struct, slice, slice of pointers} x duplicated parents; key strings include separators, the text nil and the empty string, numeric key parts include 0 (also as the LAST part of a composite key of a struct-shaped parent: deterministic 'targeted' stream in every tier), foreign keys include NULL and partly NULL tuples, children include soft-deleted rows; the inputs of the four defects fixed in /repo (separator / nil / zero key collisions, empty composite IN) are replayed from corpus/C11 first and occur in the random streams and the sweep like any other input; distinct = distinct (family, relation, mode, path, conditions, shape, table sizes, flags) shapes; non-trivial = at least one child attached and either two parents with different non-empty attachments or a child row of the table attached to nobody"
+	out.Extra["rule"] = "cases = data graph over one of 8 model families (keys: uint, string, (string,string), (int64,string), (string,int64), (int64,string) with sql.Null* foreign keys, []byte, uint by gorm's naming conventions without foreignKey/references tags) x relation {has_one, has_many, belongs_to, many2many (also through non-primary columns, and with keys of DIFFERENT lengths on the two sides: 1/2 and 2/1 columns), polymorphic, self belongs_to, self has_many} x {Preload single / nested / clause.Associations / with inline or scope conditions / a named preload with its own conditions combined with clause.Associations carrying conditions or an Unscoped scope (both orders) / the same destination loaded again after rows were soft-deleted or with other conditions, association Joins / InnerJoins without and with ON conditions passed as *gorm.DB, join paths of two and three relations joined by the longest path only / with Joins(Rel) / with every prefix (+nested preload below the first or the second joined relation), Association().Find} x Unscoped x parent shape {struct, slice, slice of pointers} x duplicated parents; key strings include separators, the text nil and the empty string, numeric key parts include 0 (also as the LAST part of a composite key of a struct-shaped parent: deterministic 'targeted' stream in every tier), foreign keys include NULL and partly NULL tuples, children include soft-deleted rows (at every level of a joined + nested-preload path, read with and without Unscoped); the inputs of the four defects fixed in /repo (separator / nil / zero key collisions, empty composite IN) are replayed from corpus/C11 first and occur in the random streams and the sweep like any other input; distinct = distinct (family, relation, mode, path, conditions, shape, table sizes, flags) shapes; non-trivial = at least one child attached and either two parents with different non-empty attachments or a child row of the table attached to nobody"
 	lib.Must(out.Flush())
 }
